@@ -111,6 +111,7 @@ func (l *lock) remove(key string, q *queue, id string) bool {
 		}
 		wasHead := i == 0
 		q.callers = append(q.callers[:i], q.callers[i+1:]...)
+		verifhook.Point("lock.removed", verifhook.Ref(q), verifhook.Ref(c), int64(i), int64(len(q.callers)))
 		// Signal the leaving caller's watchdog so it can terminate.
 		// Each caller has a fresh done channel and remove() only matches
 		// once per id, so this close is safe.
